@@ -22,8 +22,8 @@ Print Assumptions C03_well_formed_always.
 (* (1') exactly one terminal.  FULL STATEMENT (false, see the two _refuted theorems):
        forall known hs e p, let r := run_call known hs e p in
          r_end r <> KHang -> reset_kind (r_end r) = false -> accepted (r_out r) = true.
-   Proved: the same with the two silent endings excluded -- a BaseException reaching __aexit__ (D4) and
-   GRPCError(Status.OK) on a unary reply without a message -- when the handler itself sent no terminal. *)
+   Proved: the same with the one silent ending excluded -- a BaseException reaching __aexit__ (D4) when the
+   handler itself sent no terminal (silent_exit is exactly that). *)
 Theorem C03_exactly_one_terminal_partial :
   forall known hs e p, let r := run_call known hs e p in
   r_end r <> KHang -> reset_kind (r_end r) = false ->
@@ -47,12 +47,17 @@ Theorem C03_cancelled_by_close_refuted :
 Proof. exact cancelled_by_close_refuted. Qed.
 Print Assumptions C03_cancelled_by_close_refuted.
 
-(* unary handler raises GRPCError(Status.OK) without having sent a message: nothing at all is sent *)
-Theorem C03_grpc_ok_without_message_refuted :
-  exists known hs e p, let r := run_call known hs e p in
-    r_end r = KFin (RaiseGRPC status_ok None) /\ accepted (r_out r) = false /\ r_out r = [].
-Proof. exact grpc_ok_without_message_refuted. Qed.
-Print Assumptions C03_grpc_ok_without_message_refuted.
+(* repaired defect D42 -- a unary-reply handler raises GRPCError(Status.OK) without having sent a message:
+   answered UNKNOWN "Internal Server Error" with exactly one terminal (it used to get no frame at all) *)
+Theorem C03_grpc_ok_without_message_status :
+  forall known hs e p t m, validate known hs = VAccept t -> t <> TExpired ->
+  let r := run_call known hs e p in
+  exit_exn (r_end r) = Some (EGRPC status_ok m) -> reset_kind (r_end r) = false ->
+  trail_done (r_pre r) = false -> cancel_done (r_pre r) = false ->
+  server_streaming (e_card e) = false -> msg_done (r_pre r) = false ->
+  final_status (r_out r) = Some (2, Some internal_msg) /\ accepted (r_out r) = true.
+Proof. exact grpc_ok_without_message_status. Qed.
+Print Assumptions C03_grpc_ok_without_message_status.
 
 (* (2a) OK only if the handler returned normally or said OK itself; unary + OK => exactly one message *)
 Theorem C03_ok_only_if_normal :
@@ -194,7 +199,8 @@ Print Assumptions C03_refusal_is_silent.
 (* the constants and tables the model is instantiated with are the ones in /repo now *)
 Theorem C03_source_facts :
   aexit_exception = (2, Some internal_msg) /\ aexit_unary_missing = (2, Some internal_msg) /\
-  aexit_normal = (0, None) /\ deadline_status_failed = 4 /\ deadline_status_cancelled = 4 /\ status_ok = 0.
+  aexit_normal = (0, None) /\ deadline_status_failed = 4 /\ deadline_status_cancelled = 4 /\ status_ok = 0 /\
+  aexit_grpc_ok_unary_as_exception = true.
 Proof. exact aexit_constants. Qed.
 Print Assumptions C03_source_facts.
 
